@@ -449,6 +449,12 @@ class New(cssutils.util._BaseClass):
                 seq.replace(-1, val, _names[val])
             else:
                 self.append(seq, val, _names[val], token=token)
+            # white space in front of comments is no combinator of its own
+            i = len(seq) - 2
+            while i >= 0 and seq[i].type in ('COMMENT', 'descendant'):
+                if seq[i].type == 'descendant':
+                    del seq[i]
+                i -= 1
             return Constants.simple_selector_sequence
 
         if ',' == val:
